@@ -526,10 +526,23 @@ class Interp:
             eff['methods'][m[0] + m[1]] = 'inst'
             self.probes['proto.method_kind.instance'] += 1
         prev = None
+        mid = spec.get('mid_prefix')
         for rnd in range(2):
+            base_prefix = eff['prefix']
             try:
                 with kernel.budget(OP_BUDGET):
-                    got = list(proto)
+                    if mid and rnd == 0 and len(eff['types']) >= 2:
+                        # the consumer changes the prefix between two
+                        # components of one iteration: what is built next
+                        # goes by the prefix of that moment
+                        itr = iter(proto)
+                        got = [next(itr)]
+                        proto.init_prefix = mid
+                        got += list(itr)
+                        self.probes['proto.prefix_changed_mid_iteration'] \
+                            += 1
+                    else:
+                        got = list(proto)
             except Exception as e:
                 self.fail('prototype_source', f'iterating the prototype '
                           f'raised {type(e).__name__}: {e}')
@@ -542,7 +555,10 @@ class Interp:
                     self.fail('prototype_order', f'position {pos}: a '
                               f'{type(o).__name__}/{getattr(type(o), "_nsp", "?")}'
                               f', listed type {T.__name__}/{T._nsp}')
-                mname = eff['prefix'] + T.__name__
+                pref_now = eff['prefix']
+                if mid and rnd == 0 and len(eff['types']) >= 2:
+                    pref_now = base_prefix if pos == 0 else mid
+                mname = pref_now + T.__name__
                 if i in eff['dict']:
                     want = f'dict{eff["dict"][i]}'
                     self.probes['proto.dict_wins'] += (mname in
@@ -550,7 +566,7 @@ class Interp:
                 elif mname in eff['methods']:
                     want = f'method{eff["methods"][mname]}'
                     self.probes['proto.prefix_method'] += 1
-                    if eff['prefix'] != 'init_':
+                    if pref_now != 'init_':
                         self.probes['proto.custom_prefix'] += 1
                 else:
                     want = 'ctor'
@@ -559,6 +575,8 @@ class Interp:
                     self.fail('prototype_source', f'{T.__name__}/{T._nsp} '
                               f'was built by {o._src}, expected {want} '
                               f'(prefix {eff["prefix"]!r})')
+            if mid and rnd == 0 and len(eff['types']) >= 2:
+                eff['prefix'] = mid     # (stays on the instance)
             if prev is not None and any(a is b for a in got for b in prev):
                 self.fail('prototype_not_fresh', 'second iteration reused '
                           'objects of the first')
@@ -704,6 +722,12 @@ def gen_proto(rng):
             or ['A'])]]
     if rng.random() < .1:
         out['defaultdict'] = True
+    if rng.random() < .1 and not out.get('rename'):
+        new = rng.choice(['mk_', 'build', 'init_', 'late_'])
+        out['mid_prefix'] = new
+        levels[-1]['methods'] = levels[-1].get('methods', []) + [
+            [new, n] for n in sorted(set(names[:ntypes]))
+            if n not in ('prefix', 'methods') and rng.random() < .6]
     if rng.random() < .12:
         out['rename'] = [rng.randrange(ntypes), rng.choice(['A', 'B', 'C',
                                                             'Z'])]
